@@ -486,9 +486,11 @@ func c02Exec(c *vf.Ctx, d *vf.Driver, cs c02Case) {
 				return vf.None()
 			}
 			// JSON law: decoding what was marshalled gives the same object (strings for byte leaves)
-			if m, ok := DecodeJSONMap(out); !ok || !vf.FromJSON(m).Equal(vf.FromJSON(c01ToGoB(argN(a, 0)))) {
+			// (the `StrView` law of sign_verify_roundtrip_json: byte leaves become strings, members stay
+			// in the order the model built them — i.e. the model's objects are in json.Marshal's order)
+			if m, ok := DecodeJSONMap(out); !ok || !vf.FromJSON(m).Equal(c02StrView(argN(a, 0))) {
 				if json.Valid(out) && c02AllUTF8(argN(a, 0)) {
-					lawFail = "json law"
+					lawFail = "json law (StrView)"
 				}
 			}
 			c.Count("law:json")
@@ -545,6 +547,28 @@ func c02Exec(c *vf.Ctx, d *vf.Driver, cs c02Case) {
 	}
 	// ---- and the verification side must agree with the model as in C01 (incl. its direct predicate)
 	c01Exec(c, d, vcase)
+}
+
+// c02StrView: the wire value with every bytes leaf replaced by the string holding those bytes; the
+// member order is kept.
+func c02StrView(w vf.Wire) vf.Wire {
+	switch w.Kind {
+	case vf.KBytes:
+		return vf.Str(string(w.Bytes))
+	case vf.KArr:
+		a := make([]vf.Wire, len(w.Arr))
+		for i, e := range w.Arr {
+			a[i] = c02StrView(e)
+		}
+		return vf.Wire{Kind: vf.KArr, Arr: a}
+	case vf.KObj:
+		kvs := make([]vf.KV, len(w.Obj))
+		for i, kv := range w.Obj {
+			kvs[i] = vf.KV{K: kv.K, V: c02StrView(kv.V)}
+		}
+		return vf.Wire{Kind: vf.KObj, Obj: kvs}
+	}
+	return w
 }
 
 func kindOfForm(form string) string {
